@@ -128,6 +128,16 @@ pub fn install_panic_hook() {
             } else {
                 "<non-string panic payload>".to_string()
             };
+            // first line: message plus the source file of the panic (no line number: signatures
+            // must survive unrelated edits)
+            let file = info.location().map_or("?", |l| l.file());
+            let file = file.strip_prefix("/repo/").unwrap_or(file);
+            let mut lines = msg.lines();
+            let mut msg = format!("{} (in {file})", lines.next().unwrap_or(""));
+            for l in lines {
+                msg.push('\n');
+                msg.push_str(l);
+            }
             write_frame_fd(fd, b'P', msg.as_bytes());
             unsafe { libc::_exit(101) };
         }
